@@ -35,7 +35,7 @@ ASSUMPTIONS = ["the reference evaluates the repo's own payoff code on a pristine
 TIERS = {
     "quick": {"worlds": 900, "wall": 500, "shrink_budget": 60,
               "required_probes": ["c17.run_completed", "c17.barrier_event_mixed", "c17.reuse_log_then_identity",
-                                  "c17.multilevel_run", "c17.pool_run", "c17.default_happened"]},
+                                  "c17.multilevel_run", "c17.pool_run", "c17.default_happened", "c17.default_mixed"]},
     "thorough": {"worlds": 40000, "wall": 3300, "shrink_budget": 150,
                  "required_probes": ["c17.run_completed", "c17.barrier_event_mixed", "c17.reuse_log_then_identity",
                                      "c17.multilevel_run", "c17.pool_run", "c17.default_happened",
@@ -43,7 +43,7 @@ TIERS = {
 }
 
 KINDS = ["call", "put", "forward", "digital_call", "digital_put", "callspread", "butterfly",
-         "barrier", "barrier", "barrier", "cds"]
+         "barrier", "barrier", "barrier", "cds", "ntd", "ntd"]
 
 
 def generate(seed, tier="quick"):
@@ -60,11 +60,15 @@ def generate(seed, tier="quick"):
                     barrier=round(x0 * (r.uniform(1.02, 1.12) if bt.startswith("UP") else r.uniform(0.88, 0.98)), 4))
     if kind == "cds":
         spec.update(default_level=r.choice([-0.05, -0.1]), recovery=0.4, spread=0.01)
+    if kind == "ntd":
+        d = r.choice([2, 3])
+        spec.update(names=d, default_levels=[r.choice([-0.05, -0.08, -0.12]) for _ in range(d)], index=r.randrange(1, d + 1),
+                    recovery=0.4, spread=0.01)
     nruns = r.choice([1, 2, 2, 3])
     runs = []
     for _ in range(nruns):
         eng = r.choice(["standard", "standard", "mlmc"])
-        rep = "LOG" if kind == "cds" else r.choice(["LOG", "IDENTITY"])
+        rep = "LOG" if kind in ("cds", "ntd") else r.choice(["LOG", "IDENTITY"])
         runs.append({"engine": eng, "rep": rep, "nproc": r.choice([1, 1, 2, 4]), "n": r.choice([2, 3, 5, 9, 20]),
                      "max_level": r.choice([1, 2])})
     vol = r.choice([0.03, 0.08, 0.15])
@@ -111,7 +115,9 @@ def _paths(sc, count, m, log, rng):
     """explicit paths: (diffusion component, pure-jump component), additive in the process representation"""
     out = []
     x0 = sc["x0"]
-    for _ in range(count):
+    names = sc["product"].get("names")
+
+    def one():
         steps = [rng.gauss(0.0, sc["vol"]) for _ in range(m - 1)]
         jumps = [(-rng.uniform(0.02, 0.2) if rng.random() < 0.5 else rng.uniform(0.01, 0.1)) if rng.random() < sc["jump_prob"] else 0.0
                  for _ in range(m - 1)]
@@ -120,7 +126,15 @@ def _paths(sc, count, m, log, rng):
         if not log:
             # identity representation: additive moves in spot units (kept positive)
             d, j = x0 * d, x0 * 0.5 * j
-        out.append((d.tolist(), j.tolist()))
+        return d, j
+
+    for _ in range(count):
+        if names:
+            rows = [one() for _ in range(names)]
+            out.append(([r_[0].tolist() for r_ in rows], [r_[1].tolist() for r_ in rows]))
+        else:
+            d, j = one()
+            out.append((d.tolist(), j.tolist()))
     return out
 
 
@@ -146,8 +160,17 @@ def execute(wd, sc):
     times = np.linspace(0.0, T, m)
     model_for_cds = stubs.StubModel(df_value=1.0)
     model_for_cds.df = lambda t: float(np.exp(-0.03 * t))
-    product = B.build_product(spec, model_for_cds)
-    if spec["kind"] != "cds" and m > 2:
+    if spec["kind"] == "ntd":
+        from rpylib.product.payoff import CDS
+        from rpylib.product.product import Product
+        from rpylib.product.underlying import NthDefaultTimes
+
+        product = Product(payoff_underlying=NthDefaultTimes(default_levels=list(spec["default_levels"]), index=spec["index"]),
+                          payoff=CDS(recovery_rate=spec["recovery"], spread=spec["spread"], maturity=T,
+                                     discounting=model_for_cds.df), maturity=T, notional=spec["notional"])
+    else:
+        product = B.build_product(spec, model_for_cds)
+    if spec["kind"] not in ("cds", "ntd") and m > 2:
         # path observed on m dates but payoff on the terminal spot: Spot underlying with an m-point grid
         from rpylib.product.underlying import Spot
 
@@ -179,7 +202,7 @@ def execute(wd, sc):
                 cfg = ConfigurationStandard(mc_paths=n, nb_of_processes=run["nproc"])
                 stats = StdEngine(cfg, proc).price(product)
             else:
-                cp = stubs.ScriptedPathCoupling(base, times, log, df_value=df)
+                cp = stubs.ScriptedPathCoupling(base, times, log, df_value=df, names=spec.get("names"))
                 cfg = ConfigurationMultiLevel(initial_level=0, maximum_level=run["max_level"], initial_mc_paths=n,
                                               nb_of_processes=run["nproc"])
                 stats = MLEngine(cfg, cp).price_with_constant_mc_paths_and_level(product)
@@ -219,15 +242,16 @@ def execute(wd, sc):
                 comps = [(0, fine_store)] if (lvl is None or lvl == 0) else [(0, fine_store), (1, coarse_store)]
                 ev_pair = []
                 for ci, store in comps:
-                    d = diffs if diffs.ndim == 1 else diffs[ci]
-                    j = jmps if jmps.ndim == 1 else jmps[ci]
+                    pair = len(comps) == 2
+                    d = diffs[ci] if pair else diffs
+                    j = jmps[ci] if pair else jmps
                     path = base + d + j
                     val, pobj = _evaluate(pristine, run["rep"], times, path, j)
                     exp = float(val) * df
                     got = float(store[i])
                     ev = getattr(pobj.payoff, "barrier_event", None)
                     ev_pair.append(ev)
-                    if kind == "cds":
+                    if kind in ("cds", "ntd"):
                         uv = pobj.payoff_underlying.value(times, path, j)
                         if np.isfinite(uv):
                             wd.probes["c17.default_happened"] += 1
@@ -264,7 +288,7 @@ def execute(wd, sc):
                 if len(ev_pair) == 2 and ev_pair[0] is not None and ev_pair[0] != ev_pair[1]:
                     wd.probes["c17.fine_coarse_events_differ"] += 1
         if events and any(events) and not all(events):
-            wd.probes["c17.barrier_event_mixed" if kind != "cds" else "c17.default_mixed"] += 1
+            wd.probes["c17.barrier_event_mixed" if kind not in ("cds", "ntd") else "c17.default_mixed"] += 1
         pattern.append((run["engine"], run["rep"], run["nproc"] == 1, tuple(events[:12])))
     key = hashlib.sha256(repr((kind, spec.get("barrier_type"), m, tuple(pattern))).encode()).hexdigest()[:16]
     nontrivial = len(reps_seen) >= 2 or any(p[3] and any(p[3]) and not all(p[3]) for p in pattern)
@@ -280,6 +304,27 @@ def _monitors(add, sc, pristine, rep, times, path, jump, base, log):
 
     spec = sc["product"]
     kind = spec["kind"]
+    if kind == "ntd":
+        # n-th default times are non-decreasing in n, each is the first time a jump of that name falls below its level
+        from rpylib.product.underlying import NthDefaultTimes
+
+        levels_ = list(spec["default_levels"])
+        prev = -np.inf
+        firsts = []
+        for a_, jrow in zip(levels_, np.asarray(jump)):
+            idx = [i for i, x in enumerate(np.diff(jrow)) if x < a_]
+            firsts.append(times[idx[0] + 1] if idx else np.inf)
+        for k_ in range(1, len(levels_) + 1):
+            u_ = NthDefaultTimes(default_levels=levels_, index=k_)
+            u_.update(ProcessRepresentation.LOG)
+            got = float(u_.value(times, path, jump))
+            exp = sorted(firsts)[k_ - 1]
+            if got != exp:
+                add("C17.identity|n-th default time is not the n-th smallest first-passage time of the names", {"n": k_, "got": got, "expected": float(exp)})
+            if got < prev:
+                add("C17.identity|n-th-to-default times are not non-decreasing in n", {"n": k_, "got": got, "previous": prev})
+            prev = got
+        return
     spot_path = np.exp(path) if log else path
     # representation consistency of the underlying: same spot path -> same underlying value
     s_log, s_id = Spot(), Spot()
